@@ -608,6 +608,9 @@ pub struct StreamSession {
     pub comp: Completions,
     pub nreq: usize,
     pub hang: bool,
+    /// one tick of model time (TICK unless a case says otherwise; the
+    /// keepalive unit KA_UNITS_PER_TICK assumes TICK)
+    pub tick: Duration,
 }
 
 impl StreamSession {
@@ -651,6 +654,7 @@ impl StreamSession {
                 comp: Arc::new(Mutex::new(vec![])),
                 nreq: 0,
                 hang: false,
+                tick: TICK,
             },
             eff,
         ))
@@ -705,7 +709,7 @@ impl StreamSession {
     }
 
     pub async fn tick(&mut self) {
-        self.clock.advance(TICK).await;
+        self.clock.advance(self.tick).await;
     }
 
     pub fn drop_handles(&mut self) {
@@ -761,6 +765,9 @@ pub struct DgramInner {
     /// socket number whose send fails / is short, if any
     pub send_fail: Option<(usize, bool)>,
     pub connects: usize,
+    /// octets of receive buffer the transport offered in its last receive
+    /// call (the configured recv_size)
+    pub rbuf: Option<usize>,
 }
 
 #[derive(Clone)]
@@ -809,6 +816,14 @@ impl DgramNet {
     pub fn open(&self, sock: usize) -> bool {
         self.inner.lock().unwrap().socks.get(sock).map(|s| !s.dropped).unwrap_or(false)
     }
+    /// Sockets that are open now.
+    pub fn nopen(&self) -> usize {
+        self.inner.lock().unwrap().socks.iter().filter(|s| !s.dropped).count()
+    }
+    /// The receive buffer size offered last (-1: nothing was received yet).
+    pub fn rbuf(&self) -> i64 {
+        self.inner.lock().unwrap().rbuf.map(|v| v as i64).unwrap_or(-1)
+    }
 }
 
 impl AsyncConnect for DgramNet {
@@ -832,6 +847,7 @@ impl AsyncDgramRecv for DgramSock {
     fn poll_recv(&self, cx: &mut Context<'_>, buf: &mut ReadBuf<'_>) -> Poll<Result<(), io::Error>> {
         self.net.act.hit();
         let mut g = self.net.inner.lock().unwrap();
+        g.rbuf = Some(buf.remaining());
         let s = &mut g.socks[self.idx];
         match s.inq.pop_front() {
             Some(Ok(d)) => {
